@@ -1902,6 +1902,12 @@ private:
     cuckoohash_map new_map(hashsize(new_hp) * slot_per_bucket(),
                            hash_function(), key_eq(), get_allocator());
     new_map.max_num_worker_threads(max_num_worker_threads());
+    // The temporary map obeys this map's limits rather than the defaults: an
+    // explicit rehash/reserve never fails the minimum load factor test, and
+    // no path may grow past the configured maximum hashpower.
+    new_map.minimum_load_factor(AUTO_RESIZE::value ? minimum_load_factor()
+                                                   : 0.0);
+    new_map.maximum_hashpower(maximum_hashpower());
 
     parallel_exec(
         0, hashsize(hp),
